@@ -1249,6 +1249,12 @@ def run(ctx: Ctx):
         "aliasing between the stored array and the caller's array (ArrayBase stores without copying) is not modelled: "
         "the driver passes fresh arrays",
         "the equality clause is judged on NaN-free contents only (numpy and xarray disagree on NaN == NaN)",
+        "an array is 'no legal content' (clause must_reject) by element type, ndarray/DataArray, shape, dims and wavelength "
+        "coordinate only; negative photon values are clipped, not refused; clause assign_stores compares container type, "
+        "dims/coordinate, shape and values of the stored array with the assigned one, not the element type",
+        "element types outside the 15-type enumeration (datetime64, timedelta64, str) are used as operands of assignments "
+        "only (the model calls them DOther: in no TYPE_LIST), never of an in-place addition on a filled container",
+        "update() also receives nested Python lists (float64 / int64 / bool values); other Python scalars/lists are not generated",
     ]
     gen = translate_leg(ctx)
     core.proof_leg(ctx, gen, PROP_FILE)
@@ -1466,7 +1472,12 @@ META = dict(
         "array its own setter accepts (in particular from a fresh detector), every intermediate and the final state "
         "satisfy the invariant; a failed operation leaves the state untouched; reading an empty container raises; "
         "== returns exactly the equality specification, is symmetric and never raises, for all pairs of containers "
-        "satisfying the invariant (NaN-free contents). No operation is excluded and no statement is refuted any more "
+        "satisfying the invariant (NaN-free contents; the wavelength coordinate of 3-D photons is part of the array); "
+        "an assignment (setter, update, += / + on an empty container, detector setter) of an array that is no legal "
+        "content raises and changes nothing in EVERY state of the container (fresh, emptied or filled), and a completed "
+        "assignment leaves exactly the assigned array (photons clipped) / nothing for an empty source container; the "
+        "eight-clause judge applied to the implementation's observations is proved to accept the model's own behaviour on "
+        "every sequence (C13_judge_accepts_model). No operation is excluded and no statement is refuted any more "
         "(C13-F2a/b/c/d, C13-F3a/b/c repaired in the code; the translator maps the old shapes to tables that fail "
         "C13_source_tables_ok). The model is tied to the code by running generated operation sequences on buckets of "
         "real detectors of all four types and comparing, inside Coq and after every operation, the stored array "
